@@ -20,6 +20,17 @@ static Cen centroid(const PhaseSpace& ps, uint32_t n) {
     return {sq / s, sp / s, s};
 }
 
+// fraction of |charge| within three cells of the border: "the distribution stays inside the grid"
+static double border_fraction(const PhaseSpace& ps, uint32_t n) {
+    const float* d = ps.getData();
+    double tot = 0, edge = 0;
+    for (uint32_t x = 0; x < n; x++) for (uint32_t y = 0; y < n; y++) {
+        double v = std::fabs((double)d[(size_t)x * n + y]); tot += v;
+        if (x < 3 || y < 3 || x + 3 >= n || y + 3 >= n) edge += v;
+    }
+    return edge / (tot + 1e-300);
+}
+
 int main(int argc, char** argv) {
     M.parse(argc, argv);
     for (long c = M.from; c < M.from + M.count; c++) {
@@ -68,7 +79,7 @@ int main(int argc, char** argv) {
         double r0 = std::hypot(c0.q, c0.p);
         double mq = c0.q, mp = c0.p;      // exact matrix product
         double worst_tight = 0, worst_rot = 0, af = (double)(float)a;
-        bool stop = false;
+        bool stop = false, inside = true;
         for (uint32_t k = 1; k <= steps && !stop; k++) {
             rf->apply();
             drift.apply();
@@ -83,8 +94,9 @@ int main(int argc, char** argv) {
             double sin_allow = sinus ? std::max(2e-3, nonlin) * r0 * (1 + k * a) : 0;
             double tol1 = sin_allow + 2e-5 * (1 + r0) * (1 + 0.02 * k);
             double tol2 = 2.0 * a * r0 + 2e-4 + sin_allow;
-            if (std::fabs(ck.w / c0.w - 1) > 1e-3) { M.ev("charge_left_grid"); stop = true; break; }   // generator fault, not judged
-            bool lossless = std::fabs(ck.w / c0.w - 1) < 2e-6;    // the tight oracle presumes that no charge has reached the border
+            if (!inside && std::fabs(ck.w / c0.w - 1) > 1e-3) { M.ev("charge_left_grid"); stop = true; break; }   // diffused over the border: not judged
+            if (border_fraction(*A, n) > 1e-7) inside = false;    // once charge has reached the border region the case is no longer "inside the grid"
+            bool lossless = inside;
             if (!lossless) M.ev("steps_with_charge_loss_not_judged");
             if (lossless && !M.within(std::string("centroid_vs_matrix_product_over_tol.") + (sinus ? "sinus" : "linear"), e1 / tol1, 1.0)) {
                 vh::J dj; dj.s("case", ds.str()).i("step", k).n("q", ck.q).n("p", ck.p).n("want_q", mq).n("want_p", mp).n("c0_q", c0.q).n("c0_p", c0.p);
